@@ -14,6 +14,6 @@ for f in os.listdir(src):
             shutil.copy(p, os.path.join(dst, f))
 m = json.load(open(os.path.join(dst, "meta.json")))
 m["breaks_property"] = pid
-m["verified_by_lead"] = {"caught_by_check": caught, "what_was_run": "tools/tryseed.sh %s <dir> (scratch worktree + VERIF_REPO + ./check %s --tier quick); demo confirmed failing with the change and passing without by the seeding agent and re-run by the lead where noted" % (pid, pid), "note": note}
+m["verified_by_lead"] = {"caught_by_check": caught, "what_was_run": "tools/tryseed.sh or tools/confirmseed.sh %s <dir> (scratch worktree of /repo HEAD: demo passes on HEAD and fails with patch.diff, then VERIF_REPO + ./check %s --tier quick)" % (pid, pid), "note": note}
 json.dump(m, open(os.path.join(dst, "meta.json"), "w"), indent=1)
 print("kept", dst)
